@@ -541,6 +541,12 @@ def responseKids (fs : Facts) (act : SAct) : List (Str × Val) → Option (List 
 
 def responseTag (stype : Str) (act : Str) : QName := ⟨stype, act ++ "Response".toList⟩
 
+/-- `validate_arguments` on the server: every in-argument is present and passes its schema -/
+def argsValid (fs : Facts) (act : SAct) (kw : PyDict Str Val) : Bool :=
+  act.ins.all fun a => match PyDict.get? kw a.name with
+    | some v => schemaOk fs a.var v
+    | none => false
+
 /-- `action_handler` -/
 def serverHandle (fs : Facts) (stype : Str) (acts : List SAct) (h : Handler) (r : Req) : Outcome :=
   match parseActionBody fs acts r with
@@ -548,8 +554,7 @@ def serverHandle (fs : Facts) (stype : Str) (acts : List SAct) (h : Handler) (r 
   | .ok act kw =>
     -- async_handle_action: validate_arguments, then the handler
     if !(act.ins.all fun a => PyDict.contains kw a.name) then .unhandled "UpnpError".toList
-    else if !(act.ins.all fun a => match PyDict.get? kw a.name with
-                                    | some v => schemaOk fs a.var v | none => false)
+    else if !argsValid fs act kw
     then .resp 500 (faultDoc 402)
     else match h act.name kw with
       | .err code => .resp 500 (faultDoc (match code with | some c => if c = 0 then 501 else c | none => 501))
@@ -564,9 +569,7 @@ def handlerInput (fs : Facts) (acts : List SAct) (r : Req) : Option (Str × PyDi
   match parseActionBody fs acts r with
   | .bad _ => none
   | .ok act kw =>
-    if (act.ins.all fun a => match PyDict.get? kw a.name with
-                              | some v => schemaOk fs a.var v | none => false)
-    then some (act.name, kw) else none
+    if argsValid fs act kw then some (act.name, kw) else none
 
 /-! ### client: `UpnpAction.async_call` -/
 
